@@ -46,6 +46,16 @@ theorem crash_prefix_consistent (H : Hist) {B : Nat} (S : Nat) (hB : 1 < B) (ops
     · rw [← h1]
       exact key m h3 (Nat.le_trans h4 hmono) (recover_of_inv h3 h2)
 
+/-- **crash_prefix_exact**: without GC steps the recovered node IS the uninterrupted node as it was right after
+the flush that issued batch k (ops₁ = the schedule up to and including that flush): the same database key
+for key (blocks, transactions, conflict records, transfer logs, …) and the same in-memory fields — so every
+observation of it equals the uninterrupted node's at that height. -/
+theorem crash_prefix_exact (H : Hist) {B : Nat} (S : Nat) (hB : 1 < B) (ops : List Op) (hno : ∀ o ∈ ops, o.isGc = false)
+    (k : Nat) (hk : k ≤ (run H B ops).2.length) (hk0 : 0 < k) :
+    ∃ ops₁ ops₂, ops = ops₁ ++ ops₂ ∧
+      recover H B S (foldBatches ((run H B ops).2.take k) Db.empty) = .ok (run H B ops₁).1 :=
+  crash_prefix_exact_aux H S hB ops hno k hk hk0
+
 /-- non-vacuity: a schedule with headers ahead, three blocks in two flushes and a GC commit; every one of
 its batch prefixes is covered (there are 3 batches). -/
 example : ((run ⟨fun _ => 2, fun _ => [(0, 1)], fun h => [(h, some h)], fun _ => [0], List.length⟩ 2000
